@@ -26,7 +26,7 @@ pub fn def() -> PropDef {
     PropDef {
         id: "C14",
         level: "model_checking",
-        rule: "explicit-state search over requests {open, open+sync, open+subscribe, close, set_sync on/off, insert, delete, get_exact, get_many, subscribe, unsubscribe, drop, import, insert_remote, sync_initial_message, sync_process_message (first message of a session, and a later one with progress handed in), get_state} x two documents against the real SyncHandle and its actor thread; every history is executed twice: awaiting every reply before the next request, and pipelined (all requests enqueued back-to-back in order, replies collected afterwards); every reply must equal the reference model's reply after exactly the earlier requests; after the history shutdown must hand back a store equal to the model; canonical state = (get_state of both documents, entries, listed namespaces); since the actor is a single consumer of one FIFO queue, client concurrency is observable only as an enqueue order, so all merges of two clients' request sequences are among the enumerated histories; family S: every history of <= 2 (thorough 3) requests over a 10-request alphabet with a second client's stop request queued at every position among them, all enqueued back-to-back: every request is answered, the ones before the stop as the model says, the ones behind it with an error (get_many: its stream ends), the store handed back = the state before the stop; family A: the actor is stalled on a full one-slot subscriber channel, 1-2 (thorough 3) requests are queued and their futures dropped at once, then five observing requests are queued and the subscriber drained: replies and the store handed back reflect the abandoned requests; non-trivial = histories with at least two opens or a close/drop after an open",
+        rule: "explicit-state search over requests {open, open+sync, open+subscribe, close, set_sync on/off, insert, delete, get_exact, get_many, subscribe, unsubscribe, drop, import (write), import (read-only, second document), insert_remote, sync_initial_message, sync_process_message (first message of a session, and a later one with progress handed in), get_state} x two documents against the real SyncHandle and its actor thread; every history is executed twice: awaiting every reply before the next request, and pipelined (all requests enqueued back-to-back in order, replies collected afterwards); every reply must equal the reference model's reply after exactly the earlier requests; after the history shutdown must hand back a store equal to the model; canonical state = (get_state of both documents, entries, listed namespaces); since the actor is a single consumer of one FIFO queue, client concurrency is observable only as an enqueue order, so all merges of two clients' request sequences are among the enumerated histories; family S: every history of <= 2 (thorough 3) requests over a 10-request alphabet with a second client's stop request queued at every position among them, all enqueued back-to-back: every request is answered, the ones before the stop as the model says, the ones behind it with an error (get_many: its stream ends), the store handed back = the state before the stop; family A: the actor is stalled on a full one-slot subscriber channel, 1-2 (thorough 3) requests are queued and their futures dropped at once, then five observing requests are queued and the subscriber drained: replies and the store handed back reflect the abandoned requests; non-trivial = histories with at least two opens or a close/drop after an open",
         assumptions: &[
             "async_channel is a linearizable FIFO and the actor a single consumer: concurrent clients reduce to enqueue orders",
             "drop_replica releases the caller's handle and then removes the document iff no handle remains (as the API layer defines it); the model mirrors that",
@@ -57,6 +57,10 @@ pub enum Req {
     Unsubscribe(u8),
     Drop(u8),
     Import(u8),
+    /// import the read-only capability (creates the document read-only if it does not exist;
+    /// never takes the write capability away). Only for document 1, which does not exist at
+    /// the start: `ImportRead, OpenSub, Import` is an upgrade of an open, subscribed document.
+    ImportRead(u8),
     InsertRemote(u8),
     SyncInitial(u8),
     /// process a (valid, entry-free) reconciliation message of a peer
@@ -99,6 +103,7 @@ fn requests() -> Vec<Req> {
             Req::RegisterPeer(d),
         ]);
     }
+    v.push(Req::ImportRead(1));
     v
 }
 
@@ -113,6 +118,8 @@ struct Doc {
     entries: ModelReplica,
     policy_set: bool,
     peer_registered: bool,
+    /// the write capability has been imported (document 0 starts with it)
+    writable: bool,
 }
 
 impl Doc {
@@ -173,7 +180,7 @@ fn model_step(m: &mut [Doc; 2], r: Req, step: usize) -> String {
         }
         Req::Insert(d) | Req::Delete(d) => {
             let doc = &mut m[d as usize];
-            if !doc.open() {
+            if !doc.open() || !doc.writable {
                 return err;
             }
             let e = local_entry(d, step, matches!(r, Req::Delete(_)));
@@ -239,6 +246,11 @@ fn model_step(m: &mut [Doc; 2], r: Req, step: usize) -> String {
             }
         }
         Req::Import(d) => {
+            m[d as usize].exists = true;
+            m[d as usize].writable = true;
+            ok
+        }
+        Req::ImportRead(d) => {
             m[d as usize].exists = true;
             ok
         }
@@ -376,6 +388,7 @@ fn issue<'a>(
                 .import_namespace(Capability::Write(ns_secret(d)))
                 .await
                 .map(|_| ())),
+            Req::ImportRead(d) => res(h.import_namespace(Capability::Read(ns_id(d))).await.map(|_| ())),
             Req::InsertRemote(d) => res(h
                 .insert_remote(ns_id(d), remote_entry(d), PEER, ContentStatus::Missing)
                 .await),
@@ -437,6 +450,7 @@ fn exec(hist: &[Req]) -> (Bad, String, String) {
     // ---------------- sequential ----------------
     let mut m: [Doc; 2] = Default::default();
     m[0].exists = true;
+    m[0].writable = true;
     let mut want = vec![];
     let h = fresh_handle();
     let subs = std::cell::RefCell::new(Subs::default());
@@ -608,6 +622,7 @@ fn exec_shutdown(hist: &[Req], k: usize, deadline: std::time::Duration) -> Bad {
     let mut bad: Bad = vec![];
     let mut m: [Doc; 2] = Default::default();
     m[0].exists = true;
+    m[0].writable = true;
     let want: Vec<String> = hist[..k].iter().enumerate().map(|(i, r)| model_step(&mut m, *r, i)).collect();
     let h = fresh_handle();
     let h2 = h.clone();
@@ -726,6 +741,7 @@ fn exec_abandoned(xs: &[Req], deadline: std::time::Duration) -> Bad {
     let mut bad: Bad = vec![];
     let mut m: [Doc; 2] = Default::default();
     m[0].exists = true;
+    m[0].writable = true;
     let h = fresh_handle();
     let subs = std::cell::RefCell::new(Subs::default());
     let keep = std::cell::RefCell::new(vec![]);
@@ -963,6 +979,29 @@ fn run(ctx: &Ctx, report: &mut Report) {
     crate::util::silence_panics();
     run_shutdown_family(ctx, report);
     run_abandoned_family(ctx, report);
+    // many handles: 300 opens (the first with sync), all but one closed again, the document must
+    // still be usable with sync on; the last close closes it. Counts past 255 and 256.
+    if ctx.shard == 5 % ctx.of {
+        for d in 0..1u8 {
+            let mut h: Vec<Req> = vec![Req::OpenSync(d)];
+            h.extend(std::iter::repeat(Req::Open(d)).take(299));
+            h.push(Req::GetState(d));
+            h.extend(std::iter::repeat(Req::Close(d)).take(299));
+            h.extend([Req::GetState(d), Req::Insert(d), Req::SyncInitial(d), Req::Close(d), Req::GetState(d), Req::Insert(d), Req::Close(d)]);
+            let case = json!({"hist": h});
+            report.evaluations += 1;
+            report.nontrivial += 1;
+            report.count("many_handles_histories", 1);
+            match catch(|| exec(&h)) {
+                Err(p) => report.violation("no_panic", json!({"many_handles": true}), case, format!("panic: {p}"), 0),
+                Ok((bad, _, _)) => {
+                    for (o, w, d) in bad {
+                        report.violation(o, w, case.clone(), d, 0);
+                    }
+                }
+            }
+        }
+    }
     let reqs = requests();
     report.fact("requests", json!(reqs.len()));
     let depth = if ctx.quick() { 4 } else { 6 };
